@@ -294,7 +294,9 @@ func (k *ExtendedKey) Child(i uint32) (*ExtendedKey, error) {
 		keyNum := new(big.Int).SetBytes(k.key)
 		ilNum.Add(ilNum, keyNum)
 		ilNum.Mod(ilNum, btcec.S256().N)
-		childKey = ilNum.Bytes()
+		// big.Int.Bytes drops leading zero bytes, but the key is ser256(ki):
+		// a hardened child derived from it hashes 0x00 || ser256(ki) [BIP32].
+		childKey = paddedAppend(32, nil, ilNum.Bytes())
 		isPrivate = true
 	} else {
 		// Case #3.
